@@ -123,6 +123,15 @@ func (mc *Metacontroller) Reconcile(ctx context.Context, request reconcile.Reque
 		return reconcile.Result{}, err
 	}
 
+	// If the stored spec is no longer the one the running instance was started
+	// with, that instance must not keep running with the old configuration -
+	// whatever the checks below say about the new one.
+	if pc, ok := mc.parentControllers[cc.Name]; ok && !apiequality.Semantic.DeepEqual(cc.Spec, pc.cc.Spec) {
+		pc.Stop()
+		mc.eventRecorder.Eventf(&cc, v1.EventTypeNormal, events.ReasonStopped, "Stopped controller: %s", cc.Name)
+		delete(mc.parentControllers, cc.Name)
+	}
+
 	groupVersion, err := schema.ParseGroupVersion(cc.Spec.ParentResource.APIVersion)
 	if err != nil {
 		return reconcile.Result{}, err
